@@ -5,7 +5,10 @@ package context
 
 // Contracts for package context (consumed by /verif/govc; comment-only file).
 
-//@ decl DataContext.base guarded_by lockBase
+// base: the map pointer is set once at construction; every access to it and to the map's contents is made under
+// lockBase (C19). No interference is modelled: a request owns its engine's data context (C06, C17); the rule goroutines
+// it starts only read `base`.
+//@ decl DataContext.base access_under lockBase
 
 // ---------------------------------------------------------------------------
 // name resolution (C03, C15): a name that is injected always denotes the injected object; only otherwise the
@@ -14,7 +17,6 @@ package context
 //@ func (*DataContext).GetValue
 //@   props C03 C15 C19
 //@   entry nolocks
-//@   requires dc != nil
 //@   guard Vars by dc.lockVars
 //@   ensures [C03] injectedfirst: !strContains(variable, ".") && (variable in dc.base) ==> result.1 == nil && result.0 == dc.base[variable]
 //@   ensures [C15] localsecond: !strContains(variable, ".") && !(variable in dc.base) && Vars != nil && (variable in Vars) ==> result.1 == nil && result.0 == Vars[variable]
@@ -25,7 +27,6 @@ package context
 //@ func (*DataContext).SetValue
 //@   props C03 C15 C19
 //@   entry nolocks
-//@   requires dc != nil && Vars != nil
 //@   guard Vars by dc.lockVars
 //@   ghost wrote int = 0
 //@   oncall core.SetSingleValue
